@@ -31,9 +31,9 @@ func genC10(c *Ctx) {
 				me = 2
 			}
 			share := hx(shareMsg(p.eval(me + 1)))
-			alphabet := []string{"S:" + good, "T", "E", "B:0:" + vec, "B:2:0203", "B:7:00", "B:-1:00", "P:0:" + share, "P:1:" + hx([]byte{0, 1, 2}), "P:3:00", "F:0", "F:5", "F:-1"}
+			alphabet := []string{"S:" + good, "S:" + short, "T", "E", "B:0:" + vec, "B:2:0203", "B:7:00", "B:-1:00", "P:0:" + share, "P:1:" + hx([]byte{0, 1, 2}), "P:3:00", "F:0", "F:5", "F:-1"}
 			if role == "dealer" {
-				alphabet = append(alphabet, "S:"+short, "B:1:"+hx(complaintMsg(0)))
+				alphabet = append(alphabet, "B:1:"+hx(complaintMsg(0)))
 			} else {
 				third := 3 - me // the participant that is neither the dealer nor this one
 				alphabet = append(alphabet, fmt.Sprintf("B:%d:%s", third, hx(complaintMsg(0))), "B:0:"+hx(answerMsg(third, p.eval(third+1))))
